@@ -188,7 +188,7 @@ P("C01",
   rule=CIRCUIT_RULE + "Oracle: geometric legality predicate over placed rectangles (independent free-space sweep), unchanged "
        "placement after a throw, must-return on the trivially feasible class. non-trivial = >= 2 movable cells and one of "
        "{obstruction intersecting a row, split row, multi-row cell, utilisation >= 80%, a start position outside the area}; "
-       "distinct = hash of the circuit. Exhaustive part (small scope): three tiny row configurations x {no obstruction, "
+       "distinct = hash of the circuit. Exhaustive part (small scope): four tiny row configurations (the fourth: two levels of two abutting segments) x {no obstruction, "
        "1x1 obstruction} x every combination of 1..2 (3 thorough, from a reduced option set) movable cells of 4 sizes x 3 "
        "polarities x 35 target positions x 2 ordering widths, each enumerated once. A third of the cases are judged a second time on a Circuit object that was legalized before with its fixed cells elsewhere and then set to the same contents through setCellX/Y/Orientation or setSolution; 1 case in 24 adds a large companion instance (up to 300 movable cells, 24 row levels).",
   assumptions=["rows are uniform-height and pairwise disjoint by construction; movable cells have placed height a positive multiple of the row height"])
